@@ -8,8 +8,20 @@
   Parameters everywhere: `compile : E → Option V` (the XPath compiler; `none` = raises), `key : E → K`
   (sha1 of the text — injective by assumption), `eval : V → T → R` (evaluation; `R` includes run-time
   errors).  What `eval ∘ compile` *is* is C14; here only that nothing else enters a result.
+
+  Honest scope of "a compiled expression object reused any number of times on any trees": in `Model/Cache.lean`
+  a compiled form is a *value* `V` and `eval` a pure function, so `Event.evalSlot` is `eval v t` in the model and
+  in the specification alike — reuse-independence holds there BY CONSTRUCTION.  What C15b PROVES is cache
+  coherence: whatever is handed out under `key e` — fresh, cached, evicted and re-entered — is `compile e`
+  (needs `key` injective, the sha1 assumption).  The object sharing the code really has (the cache stores the
+  live object; a hit hands out a shallow copy of its operation list, i.e. the same operation objects) is modelled
+  separately in `Model/CacheHeap.lean`; `heap_results_independent_of_history` below shows that this level
+  behaves like the value level under the explicit hypothesis `EvalReadsOnly` ("`evaluate` writes neither the
+  expression object nor its operations") — an ASSUMPTION on the code of `evaluate`/`applyFunction`, watched by
+  the tie (reuse events), not proved — and `writing_evaluation_breaks_independence` that it cannot be dropped.
 -/
 import AHP.Lemmas.CacheLockThreads
+import AHP.Lemmas.CacheHeap
 import AHP.Gen.Tables
 namespace AHP.C15
 open AHP AHP.Cache
@@ -176,6 +188,65 @@ theorem unfinished_thread_progresses (hinj : Function.Injective key) (MAX CLEAR 
   tstep_measure ((every_schedule compile key eval hinj MAX CLEAR hb evss sched).thr i th hth) hne
 
 end
+
+/-! #### C15b on shared objects — what "reused any number of times" needs -/
+
+section Heap
+variable {E K O T R : Type} [DecidableEq K]
+variable (compile : E → Option (List O)) (key : E → K)
+
+/-- C15b on the heap of shared objects (cache holds the live object, hits hand out shallow copies sharing
+    the operation objects, held objects are evaluated again and again): **if evaluation only reads**
+    (`EvalReadsOnly`), every history shows exactly what the value model shows … -/
+theorem heap_run_is_value_run (evalH : Heap O → Nat → T → Heap O × R) (eval : List O → T → R)
+    (hro : EvalReadsOnly evalH eval) (MAX CLEAR : Nat) (evs : List (Event E T)) :
+    hrun compile key evalH MAX CLEAR HWorld.empty evs
+      = (run compile key eval MAX CLEAR World.empty evs).map (·.1) :=
+  hrun_eq_run compile key MAX CLEAR evalH eval hro evs HWorld.empty HWorld.OK.empty
+
+/-- … hence the cache-free specification: results depend on the expression text and the tree only, also
+    for objects reused any number of times on any trees and for copies sharing operations with the cached
+    object.  The hypothesis `hro` is the assumption on `evaluate`; it enters in `hstep_spec`, evaluation cases. -/
+theorem heap_results_independent_of_history (evalH : Heap O → Nat → T → Heap O × R) (eval : List O → T → R)
+    (hro : EvalReadsOnly evalH eval) (hinj : Function.Injective key) (MAX CLEAR : Nat) (evs : List (Event E T)) :
+    hrun compile key evalH MAX CLEAR HWorld.empty evs = specRun compile eval [] evs := by
+  rw [heap_run_is_value_run compile key evalH eval hro]
+  exact results_independent_of_history compile key eval hinj MAX CLEAR evs
+
+end Heap
+
+/-- An evaluation that writes: it returns the sum of the object's operations and bumps the first of them
+    (think of an operation object keeping a counter, or a memo, in itself). -/
+def writingEval (h : Heap Nat) (x : Nat) (_t : Nat) : Heap Nat × Nat :=
+  let addrs := h.exprs.getD x []
+  (⟨match addrs with
+     | a :: _ => h.ops.set a (h.ops.getD a 0 + 1)
+     | [] => h.ops, h.exprs⟩,
+   (h.deref x).foldl (· + ·) 0)
+
+/-- Why `EvalReadsOnly` cannot be dropped: with `writingEval` the object held in slot 0 shows `1` when
+    evaluated right away and `2` when, in between, the *same text* was queried once — the query got a
+    shallow copy of the cached live object (= the held one), evaluated it, and wrote through the shared
+    operation object.  A result then depends on the history, not only on text and tree. -/
+theorem writing_evaluation_breaks_independence :
+    let compile : Nat → Option (List Nat) := fun e => some [e, 1]
+    hrun compile id writingEval 3 1 HWorld.empty [.new 0, .evalSlot 0 0] = [.compiled, .result 1] ∧
+    hrun compile id writingEval 3 1 HWorld.empty [.new 0, .query 0 0, .evalSlot 0 0]
+      = [.compiled, .result 1, .result 2] := by
+  decide
+
+/-- Non-vacuity of `EvalReadsOnly`: the reading evaluation (sum of the operations, heap untouched). -/
+example : EvalReadsOnly (fun (h : Heap Nat) x (_ : Nat) => (h, (h.deref x).foldl (· + ·) 0))
+    (fun v _ => v.foldl (· + ·) 0) := ⟨fun _ _ _ => rfl, fun _ _ _ => rfl⟩
+
+/-- … and a heap history with a miss, a hit (shallow copy), reuse and a compile error under it. -/
+example :
+    let compile : Nat → Option (List Nat) := fun e => if e = 9 then none else some [e, 1]
+    hrun compile id (fun (h : Heap Nat) x (_ : Nat) => (h, (h.deref x).foldl (· + ·) 0)) 3 1 HWorld.empty
+      [.new 0, .query 0 0, .evalSlot 0 0, .query 9 0, .new 0, .evalSlot 1 5, .evalSlot 7 0]
+      = [.compiled, .result 1, .result 1, .compileError, .compiled, .result 1, .noSlot] := by
+  decide
+
 
 /-! #### C15c, lock level — the critical sections, statement by statement
 
